@@ -189,9 +189,66 @@ def run(tier):
                                  '--lookup %s: %s %r, rule gives %r' % (n, lv, g[lv], want[lv]), replay)
             ck.cov['traces_validated_against_impl'] += 1
             ck.nontrivial((cat, n, 'lookup'))
+    lookup_lists_leg(ck, tb, rnd, tier)
     ck.cov['rule'] = ('every database name (gss patterns with base64 tails incl. = + /) alone/first/middle/last among random neighbours, both roles, '
                       'unknown near-miss names, sized RSA/GEX contexts; expected notes from TLC (SshRating!Line); text and JSON compared per level as '
                       'multisets; --lookup of every database key compared with the context-free line. distinct = (category, name, position, role, view)')
     ck.assumptions += ['the alone/neighbour contexts avoid CBC+ETM pairings only by chance; Terrapin context is part of the expected notes either way',
                        'an unknown name must be flagged unknown in every view; other notes on it are not compared here']
     return ck.finish()
+
+
+def lookup_lists_leg(ck, tb, rnd, tier):
+    """--lookup with several names, unknown names and near misses: which names are found in which category, which are reported
+    unknown, which similar names are suggested, and the exit status - expected values from TLC (SshRating: LookupFound, NotFound,
+    Suggestions, LookupStatus)."""
+    import json
+    import re
+    from harness import tlc
+    db = tb['db2']
+    allnames = sorted({n for c in db for n in db[c]})
+    cases = []
+    for _ in range(60 if tier == 'quick' else 600):
+        k = rnd.randint(1, 4)
+        names = rnd.sample(allnames, k)
+        r = rnd.random()
+        if r < 0.3:
+            names.insert(rnd.randrange(len(names) + 1), rnd.choice(['foo-unknown', 'AES128-CTR', 'Chacha20', 'sha1', 'CURVE25519', 'nistp', 'x', 'ssh-ed25519@example.org']))
+        elif r < 0.4:
+            names = [rnd.choice(['hmac-SHA1', 'zlib', 'group14', 'ETM@openssh.com'])]
+        cases.append(names)
+    cfg = 'SPECIFICATION Spec\nCONSTANT Mode = "lookup"\nINVARIANT EmitLookup\n'
+    res = tlc.run('SshRating', cfg, generated={'tables.json': rating.tables_json(), 'cases.json': json.dumps(cases)},
+                  env={'VERIF_TABLES': 'tables.json', 'VERIF_CASES': 'cases.json'}, workers=1)
+    ck.add_tlc(res)
+    common.require(res.ok, 'SshRating (lookup): %s' % res.error_text)
+    exp = [p for p in res.prints if isinstance(p, list)]
+    common.require(exp and len(exp[0]) == len(cases), 'TLC did not emit the lookup expectations')
+    exp = exp[0]
+    results = runner.run_many([{'argv': ['-n', '--lookup', ','.join(names)]} for names in cases])
+    for names, e, r in zip(cases, exp, results):
+        ck.evaluated()
+        if r.get('harness_error') or r.get('hang'):
+            raise common.Machinery('lookup run failed: %r' % (r.get('harness_error') or 'hang'))
+        ck.nontrivial(('lookup-list', tuple(names)))
+        replay = {'argv': ['--lookup', ','.join(names)], 'exit': r['exit'], 'stdout': r['stdout'][-2500:], 'expected': e}
+        tx = report.parse_text(r['stdout'])
+        found = {(cat, a['name']) for cat in ('kex', 'key', 'enc', 'mac') for a in tx['algs'][cat]}
+        want_found = {(c, n) for c, n in e['found']}
+        out = r['stdout']
+        unk = set()
+        m = re.search(r'# unknown algorithms\n(.*?)(?:\n\n|\n#|$)', report.strip_ansi(out), re.S)
+        if m:
+            unk = {l.strip() for l in m.group(1).split('\n') if l.strip()}
+        sim = set(re.findall(r'^(\S+) --> \((\w+)\) (\S+)$', report.strip_ansi(out), re.M))
+        want_sim = {(u, c, n) for u, c, n in e['similar']}
+        if found != want_found:
+            ck.violation('lookup-found', '--lookup %s: lists %r, the database holds %r' % (','.join(names), sorted(found), sorted(want_found)), replay)
+        elif unk != set(e['notfound']):
+            ck.violation('lookup-unknown', '--lookup %s: reports unknown %r, expected %r' % (','.join(names), sorted(unk), sorted(e['notfound'])), replay)
+        elif sim != want_sim:
+            ck.violation('lookup-suggestions', '--lookup %s: suggests %r, expected %r' % (','.join(names), sorted(sim)[:5], sorted(want_sim)[:5]), replay)
+        elif r['exit'] != e['status']:
+            ck.violation('lookup-status', '--lookup %s: exit status %r, expected %r' % (','.join(names), r['exit'], e['status']), replay)
+        else:
+            ck.cov['traces_validated_against_impl'] += 1
